@@ -25,6 +25,10 @@ CHECKS = {
    text="TLC evaluates RegRequest.tla: percent-encoding round trip for all 1- and 2-byte strings (65,792 obligations) and boundary code points, safe-character set, and it computes the expected encoding of every harness-generated parameter list (str/bytes/int values, 0-6 parameters), the token and blob terms; the harness compares WARequest.urlencode/urlencodeParams byte for byte, decrypts every encryptParams blob with the recipient's private key (cryptography X25519 + AES-GCM) and compares with TLC's string, evaluates the token term with hashlib/hmac against getToken for generated phone numbers (repeated calls on one environment), and has TLC validate recorded ephemeral-key histories against the Fresh invariant.",
    note="Token constants are frozen copies in the specification; WhatsApp's servers are not available, so 'WhatsApp's construction' means the construction written in the specification.",
    technique="TLA+ transcription evaluated by TLC as reference implementation + TLC trace validation of ephemeral-key freshness"),
+ "C08": dict(level="model_checking", design="4/C08",
+   text="TLC exhaustively checks IqRegistry.tla (two registry levels: transporting protocol layer and interface layer; requests of every kind class with/without application callbacks, library-issued keep-alive ping, retry of the same id from inside the error callback; result / error / replayed / unknown-id replies in any order; server pings with colliding ids) against Correlation, NoLeak, PingsAnswered, StillWaiting; each of the three as-read deviation switches must violate an invariant (self-test). The graph's transitions are replayed on the real protocol-layer group + YowInterfaceLayer with request ids from the library's own generator and concrete request/reply stanzas rotated over the 20 iq kinds of the catalogue; callbacks, unclaimed entities at the top and pongs are compared after every step.",
+   note="Quick replays half of the transition cover (the other half with the next seed) plus 1500 random walks of the larger instance; library-internal key fetch / upload / group-info requests are covered by the end-to-end checks, not here.",
+   technique="TLA+ spec + TLC exhaustive model checking; behaviour replay (transition cover + random walks) into the assembled layers"),
 }
 NA_REASON = "check not built yet in this session (planned: see DESIGN.md section 4)"
 
